@@ -391,6 +391,7 @@ func init() {
 			}
 			iv := val.Interface()
 			got, merr := safeMarshal(iv)
+			gotCopy := append([]byte{}, got...) // what Marshal returned, before anything else is marshalled
 			if c.TooLarge {
 				if merr == nil {
 					rep.Disagree("C02:too-large-not-refused:"+cls, fmt.Sprintf("%s: a %d-byte string was written (%d bytes out) instead of being refused", c.Name, maxLen(c.Val), len(got)), info)
@@ -449,7 +450,7 @@ func init() {
 			// the bytes the code returned must not be disturbed by a later Marshal of another value
 			other, _ := safeMarshal(&tl.PseudoTrue{})
 			_ = other
-			if !bytes.Equal(got, again) {
+			if !bytes.Equal(got, gotCopy) || !bytes.Equal(again, gotCopy) {
 				rep.Disagree("C01:marshal-output-aliased:"+cls, c.Name+": Marshal output changed after a later Marshal call", info)
 			}
 			return nil
